@@ -160,6 +160,8 @@ def c01(ctx, api):
     st, summ = api['run_tlc_to_harness'](ctx, 'let', 'GenLet', cfg(constants={'Emit': 'TRUE', 'Prop': '"C01"', 'Depth': 2}), timeout=3000)
     acc.add('GenLet: projections, filters and pipes whose sub-expressions read variables, incl. correlated sub-queries (a let inside an iteration '
             'binding part of the element, used by a filter rooted at $)', st, summ)
+    st, summ = api['run_tlc_to_harness'](ctx, 'probe', 'GenProbe', cfg(constants={'Emit': 'TRUE', 'Prop': '"C01"'}), timeout=1500, harness_args=['-timeout', '60s'])
+    acc.add('GenProbe: single inputs with a pinned outcome from the audit rounds', st, summ)
     return acc.result(RULE_PINNED, extra={'bounds': {'bfs_depth': depth, 'pool_documents': 15}})
 
 
@@ -188,6 +190,8 @@ def c17(ctx, api):
     st, summ = api['run_tlc_to_harness'](ctx, 'names', 'GenNames', cfg(constants={'Emit': 'TRUE', 'Prop': '"C17"'}), timeout=1500)
     acc.add('GenNames: 31 member names that look like syntax ("x.y", "x[0]", "*", "a|b", "", "0", "let" ...) in 17 positions, each paired with its '
             'piped spelling, on documents that also hold what a name split at dots or brackets would find', st, summ)
+    st, summ = api['run_tlc_to_harness'](ctx, 'probe', 'GenProbe', cfg(constants={'Emit': 'TRUE', 'Prop': '"C17"'}), timeout=1500, harness_args=['-timeout', '60s'])
+    acc.add('GenProbe: single inputs with a pinned outcome from the audit rounds', st, summ)
     return acc.result(RULE_PINNED + '; a pair case is non-trivial when both sides have one common pinned outcome, '
                       'in which case the harness also demands that the two real results are equal',
                       extra={'schemata': ['S1 P sels = P | [*] sels', 'S2 x[*].e = map(&e,x)[*]', 'S4 a.b = a | b',
